@@ -1,4 +1,5 @@
 import ScVerif.C01.Nested
+import ScVerif.C01.Lemmas
 /-!
 # C01 — `Collection.Update` / `Add` whose own callback calls the Collection again
 
@@ -60,5 +61,62 @@ def Coll.updateN (cfg : Cfg M K R) (s : CState M R) (id : String) (msg : M) (wr 
 def Coll.addN (cfg : Cfg M K R) (s : CState M R) (id : String) (msg : M) (wr : WriteReq M K)
     (site : Site) (calls : List (COp M K)) : COut M × CState M R × List (CRes M) :=
   Coll.updateN cfg s id msg { wr with expectAbsent := true, createIfAbsent := true } site calls
+
+/-! ### lemmas -/
+
+/-- the get closure of `Update` touches neither the contents nor the clock (only the rng, when it generates an id) -/
+theorem updGet_frame (cfg : Cfg M K R) (wr : WriteReq M K) (c : UpdCtx M R) :
+    (updGet cfg wr c).2.st.items = c.st.items ∧ (updGet cfg wr c).2.st.clock = c.st.clock := by
+  unfold updGet
+  cases hcr : c.created with
+  | some cr =>
+    simp only
+    cases lookup c.st.items c.id with
+    | none => simp
+    | some it => by_cases hx : wr.expectAbsent = true <;> simp [hx]
+  | none =>
+    simp only
+    by_cases hg : (c.id = "" && wr.genEmptyID) = true
+    · simp only [hg, ↓reduceIte]
+      rcases hgen : genID cfg (usedIn c.st.items) c.st.rng with ⟨r, rng'⟩
+      cases r with
+      | none => simp
+      | some id' =>
+        simp only
+        cases lookup c.st.items id' with
+        | none => by_cases hc : wr.createIfAbsent = true <;> simp [hc]
+        | some it => by_cases hx : wr.expectAbsent = true <;> simp [hx]
+    · simp only [hg, Bool.false_eq_true, ↓reduceIte]
+      cases lookup c.st.items c.id with
+      | none => by_cases hc : wr.createIfAbsent = true <;> simp [hc]
+      | some it => by_cases hx : wr.expectAbsent = true <;> simp [hx]
+
+/-- `GetAndUpdate` on a state that carries ghost data next to what the closures touch -/
+theorem getAndUpdateN_lift (ops : MsgOps M K) (get : UpdCtx M R → Except Code (Option M) × UpdCtx M R)
+    (change : Option M → Option M → Except Code M) (save : UpdCtx M R → M → UpdCtx M R) (c0 : UpdCtx M R)
+    (g : List (CRes M)) :
+    getAndUpdateN ops (fun (x : UNest M R) => ((get x.c).1, { x with c := (get x.c).2 }))
+        (fun o d x => (change o d, x)) (fun x m => { x with c := save x.c m }) { c := c0, results := g } =
+      ((getAndUpdate ops get change save c0).1, { c := (getAndUpdate ops get change save c0).2, results := g }) := by
+  unfold getAndUpdateN getAndUpdate
+  dsimp only
+  rcases hg : get c0 with ⟨r, c1⟩
+  cases r with
+  | error c => simp
+  | ok old =>
+    dsimp only
+    cases hc : change old old with
+    | error c => simp
+    | ok new =>
+      dsimp only
+      rcases hg2 : get c1 with ⟨r2, c2⟩
+      cases r2 <;> simp <;> split <;> simp
+
+theorem nestedRunC_nil (cfg : Cfg M K R) (x : UNest M R) : nestedRunC cfg [] x = x := by
+  simp [nestedRunC, Coll.run]
+
+theorem updateTimeC_items (cfg : Cfg M K R) (wr : WriteReq M K) (st : CState M R) :
+    (updateTimeC cfg wr st).2.items = st.items := by
+  unfold updateTimeC nowC; cases wr.writeTime <;> rfl
 
 end ScVerif.C01
